@@ -66,6 +66,7 @@ def run_case(case):
         c2 = rng.choice([a for a in (0xE5, 0x00, 0x33, 252) if a not in (ca_, sa_)])
     DW = D.Dm14World(case['seed'], seedkey=seedkey, windows=windows, latency=rng.choice([(0.0001, 0.005), (0.0001, 0.0005)]), cli_addr=ca_, srv_addr=sa_,
                      second_client=c2, app_preempt=float(case.get('app_preempt', 0.0)))
+    DW.ctx['respond_inline'] = random.Random(case['seed'] ^ 0x171).random() < 0.25
     viol = M.Violations()
     tag = dict(layer='dm14')
     if case['kind'] == 'sweep':
@@ -90,7 +91,7 @@ def run_case(case):
         DW.sim.eager_wake = rng.choice([0.5, 1.0])              # (otherwise: the world's own draw, 0 in half of the cases)
     results = DW.run_ops(ops, gap=gap, timeout=2)
     obs = dict(transactions=0, reads_checked=0, writes_checked=0, multipacket=0, with_seedkey=0, converted_reads=0, leftover_queue_items=0,
-               lengths_covered_max=0, eager_switches=DW.sim.eager_switches, app_thread_holds=DW.app_holds[0])
+               lengths_covered_max=0, eager_switches=DW.sim.eager_switches, app_thread_holds=DW.app_holds[0], inline_responds=DW.inline_responds)
     if not DW.finished:
         viol.add('client_hung', 'the client application task never finished its %d operations (states %s)' % (len(ops), DW.states()), **tag)
     M.m_live(viol, DW.W, 'dm14')
